@@ -580,17 +580,32 @@ func (p *proverCtx) lin(v ssa.Value) *linexp {
 				return p.lin(fwd)
 			}
 			if fa, ok := x.X.(*ssa.FieldAddr); ok {
+				if !p.stableField(fa) && isInteger(x.Type()) {
+					if l1 := earlierSameLoad(x); l1 != nil {
+						return p.lin(l1)
+					}
+				}
 				if p.stableField(fa) {
 					lv := lvar{v: fa.X, kind: 'f', idx: fa.Field}
 					e := p.varFor(lv)
 					if axiomNonnegField(fa) {
 						p.addFact(e, "data-structure invariant: field >= 0")
 					}
+					if hi, ok := p.c.countFieldMax(fa); ok {
+						p.addFact(e, "derived invariant: count field >= 0")
+						p.addFact(e.scale(-1).addConst(hi), "derived invariant: count field <= N")
+					}
 					return e
 				}
 				if axiomNonnegField(fa) {
 					e := p.varFor(lvar{v: v, kind: 'v'})
 					p.addFact(e, "data-structure invariant: field >= 0")
+					return e
+				}
+				if hi, ok := p.c.countFieldMax(fa); ok {
+					e := p.varFor(lvar{v: v, kind: 'v'})
+					p.addFact(e, "derived invariant: count field >= 0")
+					p.addFact(e.scale(-1).addConst(hi), "derived invariant: count field <= N")
 					return e
 				}
 			}
